@@ -2,6 +2,18 @@
 import re
 import vcheck
 
+META = {
+    "engine": "coq+translator",
+    "technique": "Coq proof (lia over N with explicit mod 2^64) on a model regenerated from math.go by the translator; "
+                 "differential run of generated vs real function",
+    "level": "Full: for every n in [1,2^64) the generated Gallina image of ByzantineMajority/Minority returns the least "
+             "threshold without wrap-around; quorum-overlap and minority corollaries, also in weighted form. The model is "
+             "regenerated from tm/tmconsensus/math.go on every run and run against the real functions on a boundary-biased sweep.",
+    "note": "Trusted: Coq kernel, the translator (cross-checked by differential execution every run), Go uint64 semantics = "
+            "arithmetic mod 2^64. No axioms (Print Assumptions: closed under the global context).",
+    "design_ref": "DESIGN.md 4 (C18)",
+}
+
 
 def boundary_values(rng, count):
     vals = set()
